@@ -154,6 +154,21 @@ int main(int argc, char **argv) {
 					frg::format(frg::fmt(frg::string_view(exact, f.size()), x, y, sarg.c_str()), sink);
 					free(exact);
 					Ev("Fmt").raw("fmt", jarr(bytes_of(f))).i("x", x).i("y", y).raw("s", jarr(bytes_of(sarg))).raw("out", jarr(sink.bytes)).emit();
+					if(j.num("types", 0)) {
+						// the same format with the two integers passed as every other integer type fmt() has an overload for
+						// (values are small and non-negative, so every type holds them)
+						auto once = [&](auto a0, auto a1, const char *tn) {
+							ByteSink sk;
+							char *ex = (char *)malloc(f.size() ? f.size() : 1); memcpy(ex, f.data(), f.size());
+							frg::format(frg::fmt(frg::string_view(ex, f.size()), a0, a1, sarg.c_str()), sk);
+							free(ex);
+							Ev("Fmt").raw("fmt", jarr(bytes_of(f))).i("x", x).i("y", y).raw("s", jarr(bytes_of(sarg))).raw("out", jarr(sk.bytes)).str("types", tn).emit();
+						};
+						once((int)x, (unsigned int)y, "int,uint");
+						once((long)x, (unsigned long)y, "long,ulong");
+						once((unsigned long long)x, (short)y, "ullong,short");
+						once((unsigned short)x, (unsigned char)y, "ushort,uchar");
+					}
 				} else if(mode == "pf_fuzz") {
 					// printf_format on an arbitrary byte string placed in an exact-size, NUL-terminated heap buffer
 					std::vector<long long> in; const J *jb = j.get("in"); for(size_t i = 0; i < jb->size(); i++) in.push_back((*jb)[i].n);
